@@ -4,6 +4,7 @@
 package props
 
 import (
+	"context"
 	"fmt"
 	"reflect"
 
@@ -63,6 +64,19 @@ type OrdH struct {
 	Arr [2]OrdE
 }
 
+// value form and pointer form of one type are two types for the library: structs that are held directly in an
+// interface word (a single pointer or map member), and types whose marshaling methods have pointer receivers
+type OrdPS struct{ P *int }
+type OrdMS struct{ M map[string]int }
+type OrdNest struct{ In OrdPS }
+type OrdPM struct{ A int }
+
+func (m *OrdPM) MarshalJSON() ([]byte, error) { return []byte(fmt.Sprintf(`"pm%d"`, m.A)), nil }
+
+type OrdPT struct{ A int }
+
+func (m *OrdPT) MarshalText() ([]byte, error) { return []byte(fmt.Sprintf("pt%d", m.A)), nil }
+
 func c14Order(c *work.Ctx) {
 	type item struct {
 		t   reflect.Type
@@ -91,8 +105,27 @@ func c14Order(c *work.Ctx) {
 				return OrdH{&OrdG{P: OrdShared{1, 1}}, OrdShared{2, 3}, [2]OrdE{{OrdShared{4, 5}, "a"}, {}}}
 			}},
 		},
+		{
+			{reflect.TypeOf(OrdPS{}), `{"P":1}`, func() interface{} { return OrdPS{&one} }},
+			{reflect.TypeOf(OrdPS{}), `{"P":2}`, func() interface{} { return &OrdPS{&two} }},
+			{reflect.TypeOf([]OrdPS{}), `[{"P":3}]`, func() interface{} { return []interface{}{OrdPS{&one}, &OrdPS{&two}} }},
+			{reflect.TypeOf(OrdNest{}), `{"In":{"P":4}}`, func() interface{} { return OrdNest{OrdPS{&one}} }},
+			{reflect.TypeOf(OrdNest{}), `{"In":{"P":5}}`, func() interface{} { return &OrdNest{OrdPS{&two}} }},
+		},
+		{
+			{reflect.TypeOf(OrdMS{}), `{"M":{"a":1}}`, func() interface{} { return OrdMS{map[string]int{"k": 1}} }},
+			{reflect.TypeOf(OrdMS{}), `{"M":{"b":2}}`, func() interface{} { return &OrdMS{map[string]int{"k": 2}} }},
+			{reflect.TypeOf(OrdPM{}), `{"A":1}`, func() interface{} { return OrdPM{1} }},
+			{reflect.TypeOf(OrdPM{}), `{"A":2}`, func() interface{} { return &OrdPM{2} }},
+			{reflect.TypeOf(OrdPT{}), `{"A":3}`, func() interface{} { return OrdPT{3} }},
+			{reflect.TypeOf(OrdPT{}), `{"A":4}`, func() interface{} { return &OrdPT{4} }},
+			{reflect.TypeOf([]OrdPM{}), `[{"A":5}]`, func() interface{} { return []interface{}{OrdPM{5}, &OrdPM{6}, OrdPT{7}, &OrdPT{8}} }},
+		},
 	}
-	type res struct{ dec, enc string }
+	// a query that selects every member a struct of the groups can have: MarshalContext with it gives Marshal's
+	// document, through the separately cached filtered programs
+	allQ, _ := json.BuildFieldQuery("X", "Y", "B", "V", "C", "W", "S", "T", "U", "E", "F", "P", "G", "Sh", "Arr", "M", "In", "A", "OrdShared", "OrdA", "OrdB")
+	type res struct{ dec, enc, qenc string }
 	run := func(it item) (r res) {
 		p := reflect.New(it.t)
 		var err error
@@ -106,6 +139,13 @@ func c14Order(c *work.Ctx) {
 			r.enc = "PANIC:" + util.ErrClass(msg)
 		} else {
 			r.enc = fmt.Sprintf("%s err=%v", b, err != nil)
+		}
+		if pn, msg := util.Safe(func() {
+			b, err = json.MarshalContext(json.SetFieldQueryToContext(context.Background(), allQ), it.val())
+		}); pn {
+			r.qenc = "PANIC:" + util.ErrClass(msg)
+		} else {
+			r.qenc = fmt.Sprintf("%s err=%v", b, err != nil)
 		}
 		return
 	}
@@ -123,8 +163,8 @@ func c14Order(c *work.Ctx) {
 				if i == j {
 					continue
 				}
-				for _, mode := range []string{"decode first", "encode first", "both first"} {
-					id := fmt.Sprintf("group %d: %s of %s, then %s", gi, mode, first.t.Name(), second.t.Name())
+				for _, mode := range []string{"decode first", "encode first", "encode with a query first", "both first"} {
+					id := fmt.Sprintf("group %d: %s of %s (#%d), then %s (#%d)", gi, mode, ordName(first.t), i, ordName(second.t), j)
 					if !c.BeginS(id) {
 						continue
 					}
@@ -136,6 +176,10 @@ func c14Order(c *work.Ctx) {
 						util.Safe(func() { _ = json.Unmarshal([]byte(first.doc), reflect.New(first.t).Interface()) })
 					case "encode first":
 						util.Safe(func() { _, _ = json.Marshal(first.val()) })
+					case "encode with a query first":
+						util.Safe(func() {
+							_, _ = json.MarshalContext(json.SetFieldQueryToContext(context.Background(), allQ), first.val())
+						})
 					default:
 						run(first)
 					}
@@ -146,9 +190,12 @@ func c14Order(c *work.Ctx) {
 						what := "decoding"
 						if got.dec == cold.dec {
 							what = "encoding"
+							if got.enc == cold.enc {
+								what = "encoding with a query"
+							}
 						}
-						c.Violation(fmt.Sprintf("order of first use : %s a %s after %s of a %s differs from its cold result", what, second.t.Name(), mode, first.t.Name()), id,
-							fmt.Sprintf("after %s: %+v ; cold: %+v", first.t.Name(), got, cold))
+						c.Violation(fmt.Sprintf("order of first use : %s a %s after %s of a %s differs from its cold result", what, ordName(second.t), mode, ordName(first.t)), id,
+							fmt.Sprintf("after %s: %+v ; cold: %+v", ordName(first.t), got, cold))
 					} else if c.Prop == "C14" {
 						// the cold result itself is encoding/json's (decoding: value and error-ness)
 						if w := std(second); w.dec != cold.dec && !(len(w.dec) > 0 && len(cold.dec) > 0 && w.dec[:len(w.dec)-len(" err=<nil>")] == cold.dec[:len(cold.dec)-len(" err=<nil>")]) {
@@ -160,4 +207,11 @@ func c14Order(c *work.Ctx) {
 			}
 		}
 	}
+}
+
+func ordName(t reflect.Type) string {
+	if t.Name() != "" {
+		return t.Name()
+	}
+	return t.String()
 }
